@@ -44,6 +44,24 @@ Theorem C01_ok_write_matches : forall (H : bytes -> N) (cf : cfg) (s : st) (o : 
 Proof. exact Proof.C01_thm.ok_write_matches. Qed.
 Print Assumptions C01_ok_write_matches.
 
+(* the store is not vacuously safe: matching bytes are accepted and become readable at once —
+   through the disk path (CreateCacheFile) and through the memory write-through path *)
+Theorem C01_matching_create_visible : forall (H : bytes -> N) (cf : cfg) (s : st) (name : N) (w : stream bytes),
+  s_err w = false -> valid name = true -> H (sdata w) = name -> read s name = None ->
+  snd (step H cf s (Create name w)) = OOk /\ read (fst (step H cf s (Create name w))) name = Some (sdata w).
+Proof. exact Proof.C01_thm.matching_create_visible. Qed.
+Print Assumptions C01_matching_create_visible.
+
+Theorem C01_matching_refresh_memory_visible :
+  forall (H : bytes -> N) (cf : cfg) (s : st) (name stat : N) (w1 w2 : stream bytes) (pl : Z),
+  c_mem cf = true -> s_err w1 = false -> valid name = true -> H (sdata w1) = name ->
+  len (sdata w1) = stat -> (0 < pl)%Z -> alookup name (mem s) = None ->
+  let r := step H cf s (Refresh name true stat w1 w2 pl) in
+  snd r = OOk /\
+  view_of (fst r) name = mkview (Some (sdata w1)) (Some (len (sdata w1))) (Some (name, sdata w1, pl)).
+Proof. exact Proof.C01_thm.matching_refresh_memory_visible. Qed.
+Print Assumptions C01_matching_refresh_memory_visible.
+
 (* any timing of the drain, at the granularity of lock regions: the same conclusion for every
    sequence of atomic steps of any number of concurrent writers, drain workers, TTL workers and
    readers (each step may carry arbitrary bytes; local data = ghost sets, see Model/C01.v) *)
